@@ -41,7 +41,7 @@ Markup ==
     ">", "<r/>", "(", "a", "|b)", "(b|",
     ")", ",b)", "(b,", "((", "|b)*,b)+", "<!ENTITY e",
     " \"&e", ";\">", "<r>&e0001;</r>", "<r a=\"&e0001;\"/>", " \"v\">", ";&e",
-    "<a b=\"1\" c='2'>x", "y</a>" }
+    "<a b=\"1\" c='2'>x", "y</a>", "</b>", "&e", ";", "<!ATTLIST r a", " CDATA \"v\">" }
 STab == [str \in Markup |-> Cps(str)]
 S(str) == STab[str]
 
@@ -76,6 +76,10 @@ Deep(n) == Rep(S("<a>"), n) \o Rep(S("</a>"), n)
 \* n nested elements that carry attributes and text
 DeepMixed(n) == Rep(S("<a b=\"1\" c='2'>x"), n) \o Rep(S("y</a>"), n)
 
+\* n start tags that are never closed; n start tags closed by the wrong end tags
+Unclosed(n) == Rep(S("<a>"), n)
+Mismatch(n) == Rep(S("<a>"), n) \o Rep(S("</b>"), n)
+
 \* n children / n attributes / long character data
 ManyChildren(n) == S("<r>") \o Rep(S("<a/>"), n) \o S("</r>")
 AttrPiece(j) == S(" a") \o D4(j) \o S("=\"v\"")                       \* 10 code points
@@ -109,6 +113,14 @@ CycleAttr(k)    == DtdOpen \o EntDecls(k, 1) \o DtdClose \o UseInAttr
 ChainDecls(n) == EntDecls(n, n + 1) \o S("<!ENTITY e") \o D4(n + 1) \o S(" \"v\">")
 ChainContent(n) == DtdOpen \o ChainDecls(n) \o DtdClose \o UseInContent
 ChainAttr(n)    == DtdOpen \o ChainDecls(n) \o DtdClose \o UseInAttr
+\* n independent entities, each referenced once; n ATTLIST declarations for the same element
+PlainEntPiece(j) == S("<!ENTITY e") \o D4(j) \o S(" \"v\">")
+EntRefPiece(j)   == S("&e") \o D4(j) \o S(";")
+ManyEntities(n)  == DtdOpen \o Pieces(n, PlainEntPiece) \o DtdClose
+                    \o S("<r>") \o Pieces(n, EntRefPiece) \o S("</r>")
+AttlistPiece(j)  == S("<!ATTLIST r a") \o D4(j) \o S(" CDATA \"v\">")
+ManyAttlists(n)  == DtdOpen \o Pieces(n, AttlistPiece) \o DtdClose \o S("<r/>")
+
 \* doubling chain ("billion laughs" with base 2): the value of e0001 has 2^n characters
 LaughPiece(j) ==
   S("<!ENTITY e") \o D4(j) \o S(" \"&e") \o D4(j + 1) \o S(";&e") \o D4(j + 1) \o S(";\">")            \* 32
@@ -171,13 +183,17 @@ Odd(n) == OddDocs[n]
 -----------------------------------------------------------------------------
 (* the table: family name -> renderer, bound N, declared length bound      *)
 
-Families == { "Deep", "DeepMixed", "ManyChildren", "ManyAttrs", "LongText", "LongComment", "LongAttr", "LongCData",
+Families == { "Deep", "DeepMixed", "Unclosed", "Mismatch", "ManyEntities", "ManyAttlists", "ManyChildren", "ManyAttrs", "LongText", "LongComment", "LongAttr", "LongCData",
               "ManyRefs", "GroupsL", "GroupsR", "SeqGroupsL", "SeqGroupsR", "MixGroupsL", "Parens",
               "CycleContent", "CycleAttr", "ChainContent", "ChainAttr", "Laughs", "Odd" }
 
 Render(f, n) ==
   CASE f = "Deep" -> Deep(n)
     [] f = "DeepMixed" -> DeepMixed(n)
+    [] f = "Unclosed" -> Unclosed(n)
+    [] f = "Mismatch" -> Mismatch(n)
+    [] f = "ManyEntities" -> ManyEntities(n)
+    [] f = "ManyAttlists" -> ManyAttlists(n)
     [] f = "ManyChildren" -> ManyChildren(n)
     [] f = "ManyAttrs" -> ManyAttrs(n)
     [] f = "LongText" -> LongText(n)
@@ -204,7 +220,8 @@ Render(f, n) ==
 \* property forbids exponential time, not quadratic): 20 000 nested elements or parentheses, 50 000
 \* characters, 10 000 children, 1 000 attributes / references, a chain of 500 entities.
 MaxN(f) ==
-  CASE f \in {"Deep", "DeepMixed", "Parens"} -> 20000
+  CASE f \in {"Deep", "DeepMixed", "Parens", "Unclosed", "Mismatch"} -> 20000
+    [] f \in {"ManyEntities", "ManyAttlists"} -> 500
     [] f \in {"LongText", "LongComment", "LongAttr", "LongCData"} -> 50000
     [] f = "ManyChildren" -> 10000
     [] f = "ManyAttrs" -> 1000
@@ -219,6 +236,10 @@ MaxN(f) ==
 LenA(f) ==
   CASE f = "Deep" -> 7
     [] f = "DeepMixed" -> 22
+    [] f = "Unclosed" -> 3
+    [] f = "Mismatch" -> 7
+    [] f = "ManyEntities" -> 27
+    [] f = "ManyAttlists" -> 28
     [] f = "ManyChildren" -> 4
     [] f = "ManyAttrs" -> 10
     [] f \in {"LongText", "LongComment"} -> 1
